@@ -17,7 +17,6 @@ operations, dup only through lyd_dup_siblings(NULL parent) with three option set
 Both read everything from the case line and the answer line (the schema facts they need travel in a pseudo command), so a
 replay needs no other state."""
 import json
-import os
 
 import gens
 import vlib
@@ -851,7 +850,6 @@ class DupMatrix(Oracle):
         if len(r) != len(cmds) + 1:
             return (None, "driver protocol: %d commands, %d results" % (len(cmds), len(r)))
         S = {}
-        known = None
         last, keep, pend, sctx = {}, {}, {}, {}
         for k, (c, res) in enumerate(zip(cmds, r)):
             w = c.split(" ")
@@ -918,13 +916,6 @@ class DupMatrix(Oracle):
                     continue
                 _, ef, first, connect, keyl = x
                 if rc(res) != 0:
-                    if keyl and e in "SB" and ctx != "-" and ctx != sctx.get(st, "c0"):
-                        if known is None:
-                            known = ("dup-to-ctx-key-lookup", "%s failed (%s): a list key that already exists in the (created or "
-                                     "given) parent is looked up there by the schema node of the SOURCE context" % (desc, res[:40]))
-                        pend.pop(tslot, None)
-                        last[tslot] = None
-                        continue
                     return (None, "%s failed: %s" % (desc, res[:80]))
                 parts = res.split(" ")
                 if connect is not None:
@@ -943,11 +934,9 @@ class DupMatrix(Oracle):
                 if res != "ok":
                     return (None, "duplicate and original share a heap block (%s after %s)" % (res, cmds[k - 2][:80]))
             elif op == "xctxof":
-                if res != "ok" and known is None:
-                    # (reported at the end, so that it does not hide any other failure of the case)
-                    known = ("dup-to-ctx-any-tree-ctx" if self.any_tree_only(last.get(w[1], ""), S) else None,
-                             "a node of the duplicate belongs to another context than the target context (%s after %s)"
-                             % (res, cmds[k - 3][:80]))
+                if res != "ok":
+                    return (None, "a node of the duplicate belongs to another context than the target context (%s after %s)"
+                            % (res, cmds[k - 3][:80]))
             elif op == "inv":
                 if res != "ok":
                     return (None, "duplicate breaks a tree invariant: %s (after %s)" % (res, cmds[k - 2][:80]))
@@ -963,13 +952,7 @@ class DupMatrix(Oracle):
                     return (None, "setup command failed: %s -> %s" % (c[:60], res[:40]))
         if pend:
             return (None, "script error: expectation without a dump")
-        return known
-
-    @staticmethod
-    def any_tree_only(dump, S):
-        """the duplicate holds an anydata / anyxml node with a data-tree value (the only place where nodes of the source
-        context are known to survive a duplication into another context)"""
-        return any(kind_of(S, n) in ("anydata", "anyxml") and n.val.startswith("at") for n, _, _, _ in flat(parse_xdump(dump)))
+        return None
 
 
 # ------------------------------------------------------------------------------------------------
@@ -1034,16 +1017,14 @@ class MergeKinds(Oracle):
             s.cmds = s.cmds[:n0]
             FT, FS = parse_xdump(r[n0]), parse_xdump(r[n0 + 1])
             s.add("dup", "t1", "t9", DUP_RECURSIVE)
-            # opaque nodes: merging a source opaque node that is nested in an inner node, or whose value differs from the
-            # matching target opaque node, aborts in the unchanged tree (known findings merge-opaque-*): only every 8th case
-            # places opaque nodes freely; the others only add NEW top-level opaque subtrees to the source
-            risky = (len(L) % 8 == 3) or bool(os.environ.get("C14X_OPAQUE_ALL"))
+            # opaque nodes anywhere in both trees (the aborts this used to cause are fixed: 1e72cd5 aad6b04 c60598c; their
+            # witnesses are regression cases in corpus/mergekinds.txt)
             if same:
-                es = et = plan_edits(rng, FT, S, m.ns, p_opq=0.7 if risky else 0.0)
+                es = et = plan_edits(rng, FT, S, m.ns, p_opq=0.6)
                 FS = FT
             else:
-                et = plan_edits(rng, FT, S, m.ns, p_opq=0.7 if risky else 0.0)
-                es = plan_edits(rng, FS, S, m.ns, p_any=0.7, p_opq=0.7 if risky else 0.0, p_top=0.7 if risky else 0.5)
+                et = plan_edits(rng, FT, S, m.ns, p_opq=0.6)
+                es = plan_edits(rng, FS, S, m.ns, p_any=0.7, p_opq=0.6)
             for (ed, t) in ((et, 0), (es, 1)):
                 emit_edits(s, ed, 0, t, 9)
             s.add("xdump", "t0")
@@ -1104,37 +1085,12 @@ class MergeKinds(Oracle):
         return L
 
     @staticmethod
-    def equal_value_names(line):
-        """the case creates two opaque siblings with different names and the same value"""
-        seen = {}
-        for c in line.split("\t"):
-            w = c.split(" ")
-            if w[0] == "xopaq" and len(w) > 4:
-                for nm in seen.setdefault((w[2], w[4]), set()):
-                    if nm != w[3]:
-                        return True
-                seen[(w[2], w[4])].add(w[3])
-        return False
-
-    @staticmethod
     def top_index(forest, k):
         """DFS index of the k-th top-level node"""
         return sum(len(flat([n])) for n in forest[:k])
 
     def judge(self, line, out):
         if crashed(out):
-            err = getattr(self, "last_err", "") or ""
-            opq = [c.split(" ")[2].split("#")[0].rstrip("^") for c in line.split("\t") if c.startswith("xopaq ")]
-            if "lyd_dup_inst_next" in err and self.equal_value_names(line):
-                return ("compare-opaque-name-ignored", "lyd_merge_*: assertion in lyd_dup_inst_next(): opaque siblings with "
-                        "different names and the same value are collected as instances of one node (lyd_compare_single() does "
-                        "not compare the names of opaque nodes): " + out)
-            if "lyd_dup_inst_next" in err and opq:
-                return ("merge-opaque-nested-dup-inst", "lyd_merge_*: assertion in lyd_dup_inst_next() for an opaque source node "
-                        "below an inner node: " + out)
-            if opq and ("ly_dup_prefix_data" in err or (out == "CRASH(-11)" and "t0" in opq and "t1" in opq)):
-                return ("merge-opaque-value-update", "lyd_merge_*: updating the value of a matching opaque target node aborts "
-                        "(ly_dup_prefix_data): " + out)
             return (None, "crash: " + out)
         cmds = line.split("\t")[1:]
         r = results(out)
